@@ -178,6 +178,17 @@ fn expect(cfg: &Config, model: &Liang, wl: &[char], acc: &mut Acc) -> Expect {
     Expect { positions, d11_adjusted, d11b_adjusted, d11c_adjusted, nontrivial }
 }
 
+/// `calculate_indices` returns "the set of character indices": compared as a set; a result that is
+/// not strictly ascending is an outcome class, not a failure.
+fn as_set(mut got: Vec<usize>, acc: &mut Acc) -> Vec<usize> {
+    if !got.windows(2).all(|w| w[0] < w[1]) {
+        acc.class("note: positions not returned in strictly ascending order");
+        got.sort();
+        got.dedup();
+    }
+    got
+}
+
 fn pattern_matches(p: &liang::Pattern, wl: &[char]) -> bool {
     let mut d: Vec<char> = vec![EDGE];
     d.extend(wl.iter().copied());
@@ -216,6 +227,8 @@ fn check_config(idx: u64, cfg: &Config, words: &[(Vec<char>, Vec<String>)], acc:
             match catch(|| real.calculate_indices(&lc, w).collect::<Vec<usize>>()) {
                 Err(p) => acc.fail(idx, cfg.json(w), format!("{:?}", ex.positions), p.describe(), "calculate_indices panicked"),
                 Ok(got) => {
+                    // the statement speaks of a set of positions: order and repetition are recorded only
+                    let got = as_set(got, acc);
                     if got == ex.positions {
                         continue;
                     }
@@ -793,6 +806,7 @@ fn check_plain(idx0: u64, plain: &Liang, patterns: &str, exceptions: &str, words
                 match catch(|| real.calculate_indices(&lc, w).collect::<Vec<usize>>()) {
                     Err(p) => acc.fail(idx, case(), format!("{want:?}"), p.describe(), "calculate_indices panicked"),
                     Ok(got) => {
+                        let got = as_set(got, acc);
                         if got != want {
                             if d11.as_ref() == Some(&got) {
                                 acc.known("D11", idx, || json!({"case": case(), "model": want, "observed": got}));
